@@ -578,7 +578,8 @@ func init() {
 		ID:    "C39",
 		Units: []string{"prefork.(*Prefork).prefork", "prefork.(*Prefork).doCommand", "prefork.(*Prefork).shutdownChildren", "prefork.(*Prefork).killChild", "prefork.(*Prefork).prefork$", "sync.(*WaitGroup).Go", "context."},
 		Runs: []Run{
-			{Pkg: "prefork", Func: "vhC39Supervision", Quick: map[string]int{"maxProcs": 2, "maxThreshold": 1}, Thorough: map[string]int{"maxProcs": 2, "maxThreshold": 2}, NoNative: true, PathCap: 1500000},
+			{Pkg: "prefork", Func: "vhC39Supervision", Quick: map[string]int{"maxProcs": 2, "maxThreshold": 1}, Thorough: map[string]int{"maxProcs": 2, "maxThreshold": 1}, NoNative: true, PathCap: 1500000},
+			{Pkg: "prefork", Func: "vhC39Supervision", Thorough: map[string]int{"maxProcs": 1, "maxThreshold": 2}, ThoroughOnly: true, NoNative: true, PathCap: 1500000},
 		},
 		Assume: []string{
 			"the real master side of Prefork.prefork (Reuseport = true, so no listener is bound) on the engine's cooperative scheduler with a *virtual* clock, against simulated children: CommandProducer — the repository's own substitution point — returns commands whose process is a harness record, and (*exec.Cmd).Wait, (*os.Process).Signal, (*os.Process).Kill and runtime.GOMAXPROCS are replaced under the engine by harness stubs (//verif:stub): Wait blocks until the simulated child exits, SIGTERM makes it exit at once / after half the grace period / never (chosen per child), Kill ends it",
